@@ -22,6 +22,20 @@ auxiliary-source view of the stage) and the Lean spec (closed form):
               the yield; two-source model `rsStepS`, theorems need_resample_step, resample_two_source)
   event     = outputs - ceil(delta - 1/2)       (data of every Streamix event)
   never     = 0 while the main source lasts     (streams appended after it: append / chain / Stream(a, b))
+Stopping stages (`probe` entry).  `Stream.limit`, `Stream.skip`, `islice` with a stop, `takewhile` - alone and inside
+chains of plain stages - are asked K times INCLUDING requests past their end (StopIteration): observed are reads at
+construction, at iter(), and the pull counter at every tap after every request; the Lean side runs the protocol with
+an exit test (`StopStage.probe`, Model/C02Stop.lean; theorems stop_truncates, asked_past_the_end, limit_probe, ...).
+Count parameters travel in their Python SPELLING (int / float / Fraction / bool / inf / nan, ties and negatives
+included); the rounding (`max(int(round(n)), 0)` half-to-even, `rint` half-away for take / peek, `int(dur + .5)` for
+attack) is done by the Lean model.  Drained plain stages are asked twice more after their end as well.
+
+Registry completeness (`extra_checks`): every public name of audiolazy.__all__, every strategy, every public method
+of Stream / StreamTeeHub / Streamix / TableLookup is covered by a registry entry, probed as an elementwise function,
+or excluded with a written reason; every parameter of the covered callables is classified (source / aux / scalar /
+callable / container).  Call shapes (positional / keyword / all keywords / defaults omitted) and the kind of source
+object (iterator / Stream / generator / non-iterator iterable) are case dimensions.
+
 `ctl` cases replay a ControlStream history (value set before every next()) against the same stage
 fed with plain streams holding, read by read, the values that read discipline makes visible: the
 outputs must be identical, i.e. a change made between two next() reaches exactly the reads made
@@ -41,7 +55,10 @@ RULE = ("every registry stage x >=3 parameter sets x 3 source modes (finite+slac
         "3 kinds of auxiliary source (finite+slack, exact+trip-wire, endless) with a counter on each declared "
         "argument, plus random chains of compatible stages "
         "(depth<=3 quick, <=5 thorough; every fifth with an auxiliary-source stage at a random position) with "
-        "counting taps at every boundary, plus ControlStream histories, plus take/peek consumers; "
+        "counting taps at every boundary, plus ControlStream histories, plus take/peek consumers (spelled counts: int / float "
+        "/ Fraction / bool / inf / nan, ties, negatives), plus stopping stages (limit / skip / islice-stop / takewhile, alone and "
+        "in chains <=3 quick, <=4 thorough) x 3 source modes asked up to 14 times incl. past their end, plus call shapes "
+        "(positional / keyword / defaults) and 4 kinds of head source object, drained stages asked twice past the end; "
         "a case is non-trivial when at least one output was demanded and delivered; distinct = distinct JSON case")
 TRUSTED = [
     "hand-written Lean models ALV/Model/C02.lean of the READ DISCIPLINE of each stage (prologue / one read per loop "
@@ -61,6 +78,17 @@ TRUSTED = [
     "Streamix event = outputs - ceil(T - 1/2) for the absolute event time T; modulo_counter/sinusoid read the step "
     "value together with the start value (BEFORE the yield) - that is the library's documented zip discipline, so a "
     "ControlStream frequency change reaches the output after the next one",
+    "stopping stages: the exit test is evaluated before a read (StopStage, Model/C02Stop.lean); chains with a stopping "
+    "stage are built as `cap` (hand on at most c outputs) followed by the plain loop - justified by the truncation theorem "
+    "stop_truncates; CPython's islice (reads `max(start, stop)` items when drained) and takewhile (reads the failing item) "
+    "are modelled from their C source and trusted as such; the chain-level closed forms needOfXChain are compared on every "
+    "case but proved only for limit, takewhile and S |> limit (probe_chain_eq_spec_PENDING)",
+    "count spellings: Python's round (half to even) for limit / skip, audiolazy's rint (half away from zero) for take / peek, "
+    "int(dur + .5) for attack are re-implemented on exact rationals in Lean (pyRound / rintPos / durLen); floats are sent as "
+    "their exact rational value, inf / nan as tags with the predicted exception",
+    "API completeness tables COVER / EXCLUDE / PARAMS in harness/props/c02.py are hand-written; the check enforces that they "
+    "are total and current with respect to audiolazy.__all__, the strategy dictionaries and the public methods, and that "
+    "parameter names match the signatures - not that a role (`scalar`) is right",
     "ControlStream histories compare the real code with itself (ControlStream arguments vs. plain streams scheduled "
     "from the Lean spec's read counters); outputs are compared by repr",
 ]
@@ -73,10 +101,19 @@ ASSUMPTIONS = [
     "resample step streams: exact non-negative rational values (old/new cyclic patterns), at most one time-varying "
     "resample per chain (its step list for the model is sized from the demand of the chain behind it, <= 1500 values)",
     "size>=1, hop>=1, hop<=size for overlap-add/STFT, resample order>=1 and old/new>0 (exact Fractions), Streamix delta>=0",
+    "stopping stages: plain stages placed BEHIND a stopping stage come from DRAIN_OK (their end-of-source behaviour is "
+    "modelled); resample with float old/new only for dyadic ratios (a float step like 3./7. accumulates rounding error and "
+    "reads one item more after 7 steps - float arithmetic, outside the exact model)",
+    "attack(a, d, s): a, d >= 0 numbers (int / float), s iterable; an EMPTY sustain is the known finding D22",
     "Stream.filter has no bound (the property gives none): its reads are compared with the position of the k-th passing item",
 ]
-MANIFEST = {"technique": "Lean 4 proof (generic transducer theory + per-stage need theorems) tied to /repo by "
-                         "differential pull counting with counting / trip-wire / endless sources"}
+MANIFEST = {"technique": "Lean 4 proof (generic transducer theory, per-stage need theorems, stages with an exit test: "
+                         "truncation / past-the-end / limit and takewhile closed forms, rounding of spelled counts) tied to "
+                         "/repo by differential pull counting with counting / trip-wire / endless sources, requests past the "
+                         "end, and a registry proved complete against the public API at run time",
+            "note": "68 stage constructors in the registry (incl. attack, chunks, groupby, pairwise, batched, starmap), 4 stopping "
+                    "stages; 46 elementwise functions probed; 111 public names excluded with a written reason; D22 "
+                    "(attack with an empty sustain raises RuntimeError) recorded as known finding with a proposed fix"}
 
 warnings.simplefilter("ignore")
 
@@ -151,6 +188,36 @@ class Tap(object):
     next = __next__
 
 
+class Once(object):
+    """An iterable that is NOT an iterator (like a list): `iter()` hands out the counting source.  A stage that
+    calls iter() on its input more than once (or len() / indexing) is told apart from one that does not."""
+
+    def __init__(self, src):
+        self.src = src
+        self.iters = 0
+
+    def __iter__(self):
+        self.iters += 1
+        return self.src
+
+
+def wrap_source(kind, src):
+    """the KIND of object handed to the head stage: the raw iterator, a Stream, a generator, a non-iterator iterable"""
+    if kind == "stream":
+        return _al().Stream(src)
+    if kind == "gen":
+        return (v for v in src)
+    if kind == "iterable":
+        return Once(src)
+    return src
+
+
+# head stages that take a non-iterator iterable as a CONTAINER (documented): tee() returns the object n times,
+# resample / Streamix.add / operators cast with Stream() - all fine - but these iterate it more than once
+NO_ITERABLE_WRAP = {"tee"}
+WRAPS = ("raw", "raw", "stream", "gen", "iterable")
+
+
 class Ctx(object):
     """Per-case build context: the counting sources of the DECLARED auxiliary arguments."""
 
@@ -179,6 +246,48 @@ class Ctx(object):
 
 def _fr(x):
     return F(x) if isinstance(x, str) else x
+
+
+# ----------------------------------------------------------------------------------------------
+# numeric spelling of count parameters: the exact value and its Python type go to the Lean model,
+# which does the rounding (`roundCount` / `takeCount` / `durLen` of Model/C02Stop.lean)
+# ----------------------------------------------------------------------------------------------
+def spell_count(rng, n, kinds=("int", "int", "float", "float", "frac", "bool")):
+    """a Python spelling of (about) the count n: {"kind": int|float|frac|bool, "v": exact value}"""
+    kind = rng.choice(kinds)
+    if kind == "bool":
+        return {"kind": "bool", "v": bool(n % 2)}
+    if kind == "int":
+        return {"kind": "int", "v": n if rng.random() < .9 else -rng.randint(1, 3)}
+    # floats / Fractions around n: exact, ties (half to even!), just below / above a tie, negative
+    off = rng.choice(["0", "0", "1/4", "-1/4", "1/2", "1/2", "-1/2", "3/8", "-3/8", "5/8"])
+    q = F(n) + F(off)
+    if rng.random() < .08:
+        q = -q
+    return {"kind": kind, "v": common.enc(q)}
+
+
+def unspell(num):
+    k = num["kind"]
+    if k == "int":
+        return int(num["v"])
+    if k == "bool":
+        return bool(num["v"])
+    if k == "frac":
+        return F(num["v"])
+    if k == "float":
+        return float(F(num["v"]))
+    return float(k)          # "inf", "-inf", "nan"
+
+
+def spell_tag(num):
+    if num["kind"] in ("float", "frac"):
+        q = F(num["v"])
+        return "%s:%s" % (num["kind"], "neg" if q < 0 else "integral" if q.denominator == 1 else
+                          "tie" if q.denominator == 2 else "other")
+    if num["kind"] == "int":
+        return "int:neg" if int(num["v"]) < 0 else "int"
+    return num["kind"]
 
 
 def _pat_pred(pat, invert=False):
@@ -278,17 +387,47 @@ def _install():
     reg("compress", "any", "same", g_pat,
         lambda s, p, c: al.compress(s, it.chain([int(b) for b in p["pat"]], it.repeat(1))), FILT)
 
+    def via(s, p):
+        """the object the method is called on: a Stream, or a StreamTeeHub (whose limit / skip / append /
+        map / filter wrappers cast one of its copies to a Stream first)"""
+        return thub(s, 1) if p.get("route") == "thub" else Stream(s)
+    ROUTE = lambda rng: rng.choice(["stream", "stream", "thub"])
+
     def g_skip(rng, cx):
         n = rng.choice([0, 1, 2, 3, 5, rng.randint(0, 12)])
-        form = rng.choice(["int", "int", "float"])
-        return {"n": n, "form": form}
+        return {"n": spell_count(rng, n), "route": ROUTE(rng)}
+    def skip_num(p):
+        """(older corpus cases: n is an int and "form" says how it was spelled)"""
+        if isinstance(p["n"], dict):
+            return p["n"]
+        return {"kind": "int", "v": p["n"]} if p.get("form", "int") == "int" else {"kind": "float", "v": common.enc(F(p["n"]) + F(1, 4))}
     reg("Stream.skip", "any", "same", g_skip,
-        lambda s, p, c: Stream(s).skip(p["n"] if p["form"] == "int" else p["n"] + 0.25),
-        lambda p: {"m": "skip", "n": p["n"]})
+        lambda s, p, c: via(s, p).skip(unspell(skip_num(p))),
+        lambda p: {"m": "skipn", "n": skip_num(p)})
     reg("dropwhile", "any", "same", lambda rng, cx: {"n": rng.randint(0, 6)},
         lambda s, p, c: al.dropwhile(_first_n_pred(p["n"]), s), lambda p: {"m": "skip", "n": p["n"]})
-    reg("Stream.limit", "any", "same", lambda rng, cx: {"extra": rng.randint(0, 5)},
-        lambda s, p, c: Stream(s).limit(10 ** 5 + p["extra"]), SAMPLE)
+    # (a limit that is never reached: the stopping behaviour of limit is the `probe` entry below)
+    reg("Stream.limit", "any", "same", lambda rng, cx: {"extra": rng.randint(0, 5), "route": ROUTE(rng)},
+        lambda s, p, c: via(s, p).limit(10 ** 5 + p["extra"]), SAMPLE)
+    reg("pairwise", "any", "c", NOP, lambda s, p, c: al.pairwise(s), lambda p: {"m": "skip", "n": 1})
+    reg("starmap", "any", "same", NOP,
+        lambda s, p, c: al.starmap(lambda v: v, al.imap(lambda v: (v,), s)), lambda p: {"m": "cascade", "n": 2})
+    reg("batched", "any", "c", lambda rng, cx: {"n": rng.randint(1, 5)},
+        lambda s, p, c: al.batched(s, p["n"]), lambda p: {"m": "blocks", "size": p["n"], "hop": p["n"]})
+
+    def b_groupby(s, p, c):
+        # the key changes exactly where the pattern says so (a new group starts at a passing item)
+        state = {"i": 0, "key": 0}
+
+        def key(_v):
+            i = state["i"]
+            state["i"] = i + 1
+            if i == 0 or (p["pat"][i] if i < len(p["pat"]) else True):
+                state["key"] += 1
+            return state["key"]
+        return al.groupby(s, key)
+    reg("groupby", "any", "c", g_pat, b_groupby,
+        lambda p: {"m": "filt", "pat": [True] + list(p["pat"][1:])})
 
     def g_items(rng, cx):
         return {"n": rng.randint(0, 6)}
@@ -483,13 +622,44 @@ def _install():
             (lambda n: lambda p: {"m": "cascade", "n": n})(nst))
     reg("amdf", "s", "s", lambda rng, cx: {"lag": rng.choice([1, 2, 3, 1.5]), "size": rng.randint(1, 4)},
         lambda s, p, c: al.amdf(p["lag"], p["size"])(s), lambda p: {"m": "cascade", "n": 3})
-    reg("clip", "s", "s", lambda rng, cx: {"low": rng.choice([None, -2, -1]), "high": rng.choice([None, 1, 3])},
-        lambda s, p, c: al.clip(s, p["low"], p["high"]), SAMPLE)
+    # call SHAPES: positional / keyword / the source by keyword too / parameters omitted (their documented defaults)
+    SHAPES = ["pos", "kw", "allkw", "default"]
+
+    def b_clip(s, p, c):
+        sh = p.get("shape", "pos")
+        if sh == "default":
+            return al.clip(s)                                   # low=-1., high=1.
+        if sh == "kw":
+            return al.clip(s, low=p["low"], high=p["high"])
+        if sh == "allkw":
+            return al.clip(high=p["high"], sig=s, low=p["low"])
+        return al.clip(s, p["low"], p["high"])
+    reg("clip", "s", "s", lambda rng, cx: {"low": rng.choice([None, -2, -1]), "high": rng.choice([None, 1, 3]),
+                                           "shape": rng.choice(SHAPES)}, b_clip, SAMPLE)
+
+    def b_zcross(s, p, c):
+        sh = p.get("shape", "kw")
+        if sh == "default":
+            return al.zcross(s)                                 # hysteresis=0, first_sign=0
+        if sh == "pos":
+            return al.zcross(s, p["hyst"], p["first"])
+        if sh == "allkw":
+            return al.zcross(first_sign=p["first"], seq=s, hysteresis=p["hyst"])
+        return al.zcross(s, hysteresis=p["hyst"], first_sign=p["first"])
     reg("zcross", "s", "s",
-        lambda rng, cx: {"hyst": rng.choice([0, 1, 2, 20]), "first": rng.choice([0, 0, 1, -1])},
-        lambda s, p, c: al.zcross(s, hysteresis=p["hyst"], first_sign=p["first"]),
-        lambda p: {"m": "zcross", "known": p["first"] != 0})
-    reg("unwrap", "s", "s", NOP, lambda s, p, c: al.unwrap(s), lambda p: {"m": "first"})
+        lambda rng, cx: {"hyst": rng.choice([0, 1, 2, 20]), "first": rng.choice([0, 0, 1, -1]), "shape": rng.choice(SHAPES)},
+        b_zcross, lambda p: {"m": "zcross", "known": p["first"] != 0 and p.get("shape") != "default"})
+
+    def b_unwrap(s, p, c):
+        sh = p.get("shape", "default")
+        if sh == "pos":
+            return al.unwrap(s, al.pi, 2 * al.pi)
+        if sh == "kw":
+            return al.unwrap(s, max_delta=al.pi, step=2 * al.pi)
+        if sh == "allkw":
+            return al.unwrap(step=2 * al.pi, sig=s, max_delta=al.pi)
+        return al.unwrap(s)
+    reg("unwrap", "s", "s", lambda rng, cx: {"shape": rng.choice(SHAPES)}, b_unwrap, lambda p: {"m": "first"})
 
     # --- synth with stream arguments ---------------------------------------------------------------------
     MODC_ARGS = {"start": ("modulo", "step"), "modulo": ("start", "step"), "step": ("start", "modulo")}
@@ -519,9 +689,29 @@ def _install():
         lambda rng, cx: {"phase": rng.random() < .4, "main": rng.choice(["freq", "freq", "phase"])},
         b_sin, lambda p: {"m": "cascade", "n": 3},
         aux=lambda p: [A("freq")] if p.get("main") == "phase" else ([A("phase")] if p["phase"] else []))
-    reg("TableLookup.__call__", "s", "s", lambda rng, cx: {"phase": rng.random() < .5},
-        lambda s, p, c: al.sin_table(Stream(s) * .01, phase=(Stream(c.get("phase")) * .1) if p.get("phase") else 0.),
+    TABLES = {"sin": lambda: al.sin_table, "saw": lambda: al.saw_table, "own": lambda: al.TableLookup([0., 1., 0., -1.], cycles=1),
+              "harm": lambda: al.sin_table.harmonize({1: 1., 2: .5}).normalize()}
+    reg("TableLookup.__call__", "s", "s", lambda rng, cx: {"phase": rng.random() < .5, "table": rng.choice(sorted(TABLES))},
+        lambda s, p, c: TABLES[p.get("table", "sin")]()(Stream(s) * .01, phase=(Stream(c.get("phase")) * .1) if p.get("phase") else 0.),
         lambda p: {"m": "cascade", "n": 4}, aux=lambda p: [A("phase")] if p.get("phase") else [])
+
+    # --- envelopes with an iterable argument -------------------------------------------------------------
+    def g_attack(rng, cx):
+        dur = lambda: rng.choice([{"kind": "int", "v": rng.randint(0, 4)},
+                                  {"kind": "float", "v": common.enc(F(rng.randint(0, 9), 2))},
+                                  {"kind": "float", "v": common.enc(F(rng.randint(0, 30), 8))}])
+        return {"a": dur(), "d": dur(), "sus": rng.choice(["src", "stream", "thub", "gen"])}
+
+    def b_attack(s, p, c):
+        sus = {"src": lambda: s, "stream": lambda: Stream(s), "thub": lambda: thub(s, 1),
+               "gen": lambda: (v for v in s)}[p["sus"]]()
+        return al.attack(unspell(p["a"]), unspell(p["d"]), sus)
+    reg("attack", "s", "s", g_attack, b_attack, lambda p: {"m": "attack", "a": p["a"], "d": p["d"]})
+
+    for strat in ("struct", "array"):
+        reg("chunks." + strat, "s", "c", lambda rng, cx: {"size": rng.randint(1, 6)},
+            (lambda st: lambda s, p, c: al.chunks[st](s, size=p["size"], dfmt="f"))(strat),
+            lambda p: {"m": "blocks", "size": p["size"], "hop": p["size"]})
 
     # --- blocks / overlap-add / stft --------------------------------------------------------------------
     def g_blocks(rng, cx):
@@ -537,9 +727,25 @@ def _install():
         return Stream(s).blocks(size=p["size"], hop=p["hop"], padval=0)
     reg("blocks", "s", "b", g_blocks, b_blocks,
         lambda p: {"m": "blocks", "size": p["size"], "hop": p["hop"] or p["size"]})
-    reg("zero_pad", "any", "same", lambda rng, cx: {"left": rng.randint(0, 6), "right": rng.randint(0, 3)},
-        lambda s, p, c: al.zero_pad(s, left=p["left"], right=p["right"], zero=([0] * (c.bsize or 3) if c.kind == "b" else 0)),
-        lambda p: {"m": "pad", "pre": p["left"], "post": p["right"]})
+    def g_zpad(rng, cx):
+        sp = lambda n: rng.choice([n, n, bool(n % 2)])            # range() takes ints and bools only
+        shape = rng.choice(SHAPES if cx.get("kind") != "b" else SHAPES[:3])
+        if shape == "default":
+            return {"left": 0, "right": 0, "shape": shape}
+        return {"left": sp(rng.randint(0, 6)), "right": sp(rng.randint(0, 3)), "shape": shape}
+
+    def b_zpad(s, p, c):
+        zero = [0] * (c.bsize or 3) if c.kind == "b" else 0
+        sh = p.get("shape", "kw")
+        if sh == "default" and c.kind != "b":
+            return al.zero_pad(s)                                 # left=0, right=0, zero=0.
+        if sh == "pos":
+            return al.zero_pad(s, p["left"], p["right"], zero)
+        if sh == "allkw":
+            return al.zero_pad(zero=zero, right=p["right"], seq=s, left=p["left"])
+        return al.zero_pad(s, left=p["left"], right=p["right"], zero=zero)
+    reg("zero_pad", "any", "same", g_zpad, b_zpad,
+        lambda p: {"m": "pad", "pre": int(p["left"]), "post": int(p["right"])})
 
     def g_ola(rng, cx):
         size = cx.get("bsize") or 3
@@ -579,9 +785,27 @@ def _install():
     def g_rs(rng, cx):
         old, new = rng.choice([(1, 2), (2, 1), (1, 1), (3, 2), (2, 3), (5, 2), (1, 4), (7, 3), (3, 7),
                                (rng.randint(1, 9), rng.randint(1, 9))])
-        return {"old": old, "new": new, "order": rng.randint(1, 6)}
-    reg("resample", "s", "s", g_rs,
-        lambda s, p, c: al.resample(s, old=F(p["old"]), new=F(p["new"]), order=p["order"], zero=0),
+        shape = rng.choice(["kw", "kw", "pos", "default-order", "default-all"])
+        if shape == "default-all":
+            return {"old": 1, "new": 1, "order": 3, "shape": shape, "num": "int"}
+        # floats only where old/new is a dyadic rational: the float step and its running sums are exact then
+        # (3./7. accumulates to 3.0000000000000004 after 7 steps and reads one item more: float arithmetic, not laziness)
+        nums = ["frac", "frac", "int", "float"] if new in (1, 2, 4, 8) else ["frac"]
+        return {"old": old, "new": new, "order": 3 if shape == "default-order" else rng.randint(1, 6), "shape": shape,
+                "num": rng.choice(nums)}
+
+    def b_rs(s, p, c):
+        num = {"frac": F, "int": int, "float": float}[p.get("num", "frac")]      # ints / small floats are exact too
+        old, new = num(p["old"]), num(p["new"])
+        sh = p.get("shape", "kw")
+        if sh == "default-all":
+            return al.resample(s)                                 # old=1, new=1, order=3, zero=0.
+        if sh == "default-order":
+            return al.resample(s, old, new)                       # order=3
+        if sh == "pos":
+            return al.resample(s, old, new, p["order"], 0)
+        return al.resample(s, old=old, new=new, order=p["order"], zero=0)
+    reg("resample", "s", "s", g_rs, b_rs,
         lambda p: {"m": "resample", "order": p["order"], "step": str(F(p["old"], p["new"]))})
 
     # time-varying step: old and/or new are Streams over counting sources with exact values
@@ -649,6 +873,232 @@ def _install():
                        if n is not None])
 
 
+
+# ----------------------------------------------------------------------------------------------
+# completeness of the registry with respect to the PUBLIC API (extra_checks)
+#
+# Every public name of `audiolazy.__all__`, every strategy of every public StrategyDict, every
+# public method of Stream / StreamTeeHub / Streamix / TableLookup and the `__call__` of the filter
+# and polynomial classes must be
+#   * exercised by a registry entry (COVER: api name -> entries that build it on counting sources), or
+#   * an elementwise function (probed here, ALL of them: 0 reads at construction, k reads for k outputs), or
+#   * excluded with a reason (EXCLUDE).
+# A name in none of the three fails the check; so does a covered callable whose signature has a
+# parameter that the table PARAMS does not classify (source / aux = a counting source stands for it;
+# scalar / callable / container = why no counting source can).
+# ----------------------------------------------------------------------------------------------
+COVER = {
+    "Stream": ["Stream", "Stream(a,b)", "append.stream"], "Stream.map": ["Stream.map"], "Stream.filter": ["Stream.filter"],
+    "Stream.skip": ["Stream.skip", "x:Stream.skip"], "Stream.limit": ["Stream.limit", "x:Stream.limit"],
+    "Stream.append": ["Stream.append", "prepend", "append.stream"], "Stream.blocks": ["blocks"],
+    "Stream.copy": ["Stream.copy"], "Stream.take": ["entry:take"], "Stream.peek": ["entry:take", "entry:peek"],
+    "Stream.__call__": ["Stream.__call__"], "Stream.__getattr__": ["Stream.real"], "Stream.__iter__": ["Stream"],
+    "Stream.__abs__": ["op.unary"], "Stream.<operators>": ["op.scalar", "op.unary", "op.iter"],
+    "StreamTeeHub": ["thub"], "thub": ["thub", "Poly.__call__", "ZFilter.timevarying"],
+    "StreamTeeHub.skip": ["Stream.skip", "x:Stream.skip"], "StreamTeeHub.limit": ["Stream.limit", "x:Stream.limit"],
+    "StreamTeeHub.append": ["Stream.append"], "StreamTeeHub.map": ["Stream.map"], "StreamTeeHub.filter": ["Stream.filter"],
+    "StreamTeeHub.copy": ["entry:peek"], "StreamTeeHub.__iter__": ["thub"],
+    "Streamix": ["Streamix"], "Streamix.add": ["Streamix"], "tostream": ["zcross", "unwrap", "modulo_counter"],
+    "imap": ["imap", "imap2"], "ifilter": ["ifilter"], "ifilterfalse": ["ifilterfalse"], "compress": ["compress"],
+    "takewhile": ["takewhile", "x:takewhile"], "dropwhile": ["dropwhile"], "cycle": ["cycle"], "islice": ["islice", "x:islice"],
+    "starmap": ["starmap"], "pairwise": ["pairwise"], "batched": ["batched"], "groupby": ["groupby"],
+    "izip.izip": ["izip"], "izip.longest": ["izip.longest"], "izip_longest": ["izip.longest"],
+    "chain.chain": ["chain", "append.stream"], "chain.star": ["chain.star", "append.stream"], "tee": ["tee"],
+    "accumulate.accumulate": ["accumulate.itertools"], "accumulate.func": ["accumulate.func"], "accumulate.z": ["accumulate.z"],
+    "z": ["ZFilter.__call__", "ZFilter.timevarying"], "ZFilter": ["ZFilter.__call__"], "LinearFilter": ["ZFilter.__call__"],
+    "LinearFilter.__call__": ["ZFilter.__call__", "ZFilter.timevarying"],
+    "CascadeFilter": ["CascadeFilter"], "ParallelFilter": ["ParallelFilter"], "FilterList": ["CascadeFilter", "ParallelFilter"],
+    "CascadeFilter.__call__": ["CascadeFilter"], "ParallelFilter.__call__": ["ParallelFilter"],
+    "comb.fb": ["filter.design"], "comb.tau": ["filter.design"], "comb.ff": ["filter.design"],
+    "Poly": ["Poly.__call__"], "Poly.__call__": ["Poly.__call__"], "x": ["Poly.__call__"], "resample": ["resample", "resample.tv"],
+    "gammatone.sampled": ["gammatone"], "gammatone.slaney": ["gammatone"], "gammatone.klapuri": ["gammatone"],
+    "zcross": ["zcross"], "clip": ["clip"], "unwrap": ["unwrap"], "amdf": ["amdf"],
+    "envelope.rms": ["envelope.rms"], "envelope.abs": ["envelope.abs"], "envelope.squared": ["envelope.squared"],
+    "maverage.deque": ["maverage.deque"], "maverage.recursive": ["maverage.recursive"], "maverage.fir": ["maverage.fir"],
+    "overlap_add.list": ["overlap_add.list", "stft"], "stft.rfft": ["stft"],
+    "blocks": ["blocks"], "zero_pad": ["zero_pad"], "chunks.struct": ["chunks.struct"], "chunks.array": ["chunks.array"],
+    "modulo_counter": ["modulo_counter"], "sinusoid": ["sinusoid"], "attack": ["attack"],
+    "TableLookup": ["TableLookup.__call__"], "TableLookup.__call__": ["TableLookup.__call__"],
+    "sin_table": ["TableLookup.__call__"], "saw_table": ["TableLookup.__call__"],
+}
+for _fam in ("lowpass", "highpass"):
+    for _st in ("pole", "z", "pole_exp", "z_exp"):
+        COVER["%s.%s" % (_fam, _st)] = ["filter.design"]
+for _st in ("poles_exp", "freq_poles_exp", "z_exp", "freq_z_exp"):
+    COVER["resonator." + _st] = ["filter.design"]
+
+_R_BLOCK = "works on ONE finite block / container given as a whole and returns a container or a number (eager by definition)"
+_R_SRC = "takes numbers only and generates values: a source, not a stage (nothing it could read)"
+_R_COMBI = "combinatoric itertools: itertools itself copies the whole pool (`tuple(iterable)`) when the object is made - documented, cannot be lazy"
+_R_NUM = "number / string helper: no iterable in, no iterable out"
+_R_INFRA = "language / class machinery (compatibility aliases of builtins, metaclasses, decorators, containers of strategies)"
+_R_IO = "hardware or file I/O object (C17 / C18 own the chunk and file layers); not buildable on a counting source"
+_R_LEAK = "a private itertools name that the `for func in dir(it)` loop of lazy_itertools leaks into __all__; not an API"
+_R_NUMPY = "needs numpy, which the environment of the repo does not have (ImportError at call)"
+EXCLUDE = {}
+for _n in ("acorr", "lag_matrix", "dft", "toeplitz", "levinson_durbin", "parcor", "parcor_stable", "lsf", "lsf_stable", "lagrange.func",
+           "lagrange.poly", "almost_eq.bits", "almost_eq.diff", "ParCorError", "rst_table", "small_doc"):
+    EXCLUDE[_n] = _R_BLOCK
+for _n in ("line", "fadein", "fadeout", "ones", "zeros", "zeroes", "adsr", "white_noise", "gauss_noise", "impulse", "count", "repeat",
+           "ControlStream"):
+    EXCLUDE[_n] = _R_SRC
+EXCLUDE["karplus_strong"] = ("freq and tau must be numbers (a Stream raises TypeError): `comb.tau(...).linearize()(zeros(), memory=memory)` - "
+                             "a source; its `memory` iterable is a filter memory (read when the filter is called, TRUSTED line)")
+for _n in ("combinations", "combinations_with_replacement", "permutations", "product"):
+    EXCLUDE[_n] = _R_COMBI
+for _n in ("gammatone_erb_constants", "str2freq", "str2midi", "freq2str", "midi2str", "octaves", "sHz", "multiplication_formatter",
+           "pair_strings_sum_formatter", "format_docstring", "factorial", "rint"):
+    EXCLUDE[_n] = _R_NUM
+for _n in ("orange", "xrange", "xzip", "xzip_longest", "xmap", "xfilter", "iteritems", "itervalues", "im_func", "meta",
+           "OpMethod", "AbstractOperatorOverloaderMeta", "MultiKeyDict", "StrategyDict", "LinearFilterProperties", "ZFilterMeta",
+           "FilterListMeta", "PolyMeta", "StreamMeta", "TableLookupMeta", "avoid_stream", "MemoryLeakWarning", "elementwise", "cached",
+           "Stream.register_ignored_class", "StreamTeeHub.take", "TableLookup.table", "TableLookup.harmonize", "TableLookup.normalize"):
+    EXCLUDE[_n] = _R_INFRA
+for _n in ("RecStream", "AudioIO", "AudioThread", "WavStream"):
+    EXCLUDE[_n] = _R_IO
+for _n in ("_grouper", "_tee", "_tee_dataobject", "BuiltinImporter"):
+    EXCLUDE[_n] = _R_LEAK
+for _n in ("overlap_add.numpy", "stft.cfft", "stft.cfftr"):
+    EXCLUDE[_n] = _R_NUMPY
+# strategy dictionaries of block / number functions: every strategy is a block function
+BLOCK_DICTS = {"window": _R_BLOCK, "wsymm": _R_BLOCK, "lpc": _R_BLOCK, "erb": _R_NUM, "phon2dB": _R_NUM, "float_str": _R_NUM}
+
+# covered callables with inspectable signatures: role of EVERY parameter
+#   source / aux : a counting source stands for it in the named registry entries
+#   scalar       : must be a number (the code does arithmetic / range() / comparisons with it at once)
+#   callable, container (finite list consumed when the stage is made, by design), flag, any
+PARAMS = {
+    "zcross": {"seq": "source", "hysteresis": "scalar", "first_sign": "scalar"},
+    "clip": {"sig": "source", "low": "scalar", "high": "scalar"},
+    "unwrap": {"sig": "source", "max_delta": "scalar", "step": "scalar"},
+    "amdf": {"lag": "scalar", "size": "scalar"},
+    "blocks": {"seq": "source", "size": "scalar", "hop": "scalar", "padval": "any"},
+    "zero_pad": {"seq": "source", "left": "scalar", "right": "scalar", "zero": "any"},
+    "resample": {"sig": "source", "old": "aux", "new": "aux", "order": "scalar", "zero": "any"},
+    "modulo_counter": {"start": "source", "modulo": "source", "step": "source"},
+    "sinusoid": {"freq": "source", "phase": "source"},
+    "attack": {"a": "scalar", "d": "scalar", "s": "source"},
+    "tee": {"data": "source", "n": "scalar"}, "thub": {"data": "source", "n": "scalar"},
+    "Stream.take": {"self": "source", "n": "scalar", "constructor": "callable"},
+    "Stream.peek": {"self": "source", "n": "scalar", "constructor": "callable"},
+    "Stream.skip": {"self": "source", "n": "scalar"}, "Stream.limit": {"self": "source", "n": "scalar"},
+    "Stream.append": {"self": "source", "other": "aux"}, "Stream.map": {"self": "source", "func": "callable"},
+    "Stream.filter": {"self": "source", "func": "callable"}, "Stream.copy": {"self": "source"},
+    "Stream.blocks": {"self": "source", "args": "scalar", "kwargs": "scalar"},
+    "Streamix.add": {"self": "any", "delta": "scalar", "data": "source"},
+    "TableLookup.__call__": {"self": "any", "freq": "source", "phase": "aux"},
+    "LinearFilter.__call__": {"self": "any", "seq": "source", "memory": "container", "zero": "any"},
+    "chunks.struct": {"seq": "source", "size": "scalar", "dfmt": "any", "byte_order": "any", "padval": "any"},
+    "chunks.array": {"seq": "source", "size": "scalar", "dfmt": "any", "byte_order": "any", "padval": "any"},
+    "envelope.rms": {"sig": "source", "cutoff": "scalar"}, "envelope.abs": {"sig": "source", "cutoff": "scalar"},
+    "envelope.squared": {"sig": "source", "cutoff": "scalar"},
+    "overlap_add.list": {"blk_sig": "source", "size": "scalar", "hop": "scalar", "wnd": "container", "normalize": "flag"},
+    "lowpass.pole": {"cutoff": "aux"}, "lowpass.z": {"cutoff": "aux"}, "highpass.pole": {"cutoff": "aux"}, "highpass.z": {"cutoff": "aux"},
+    "resonator.poles_exp": {"freq": "aux", "bandwidth": "aux"}, "resonator.z_exp": {"freq": "aux", "bandwidth": "aux"},
+    "comb.fb": {"delay": "scalar", "alpha": "aux"}, "comb.tau": {"delay": "scalar", "tau": "aux"}, "comb.ff": {"delay": "scalar", "alpha": "aux"},
+    "accumulate.func": {"iterable": "source"},
+}
+ELEMENTWISE_EXTRA = ("freq2lag", "lag2freq", "freq_to_lag", "lag_to_freq", "freq2midi", "midi2freq")
+
+
+def _public_api():
+    """{api name: object} - see the comment above; aliases of one strategy function are one name"""
+    al = _al()
+    out = {}
+    classes = {"Stream": ("__call__", "__getattr__", "__iter__", "__abs__"), "StreamTeeHub": ("__iter__",), "Streamix": (),
+               "TableLookup": ("__call__",), "LinearFilter": ("__call__",), "CascadeFilter": ("__call__",),
+               "ParallelFilter": ("__call__",), "Poly": ("__call__",)}
+    for name in al.__all__:
+        obj = getattr(al, name)
+        if isinstance(obj, al.StrategyDict):
+            seen = {}
+            for keys, func in obj.items():
+                first = [k for k in keys if ("%s.%s" % (name, k)) in COVER or ("%s.%s" % (name, k)) in EXCLUDE]
+                out["%s.%s" % (name, (first or sorted(keys))[0])] = func
+            continue
+        if not callable(obj):
+            continue
+        out[name] = obj
+        if name in classes:
+            # the filter / polynomial classes: only the call is a stage (the rest is analysis of coefficients)
+            only_call = name in ("LinearFilter", "CascadeFilter", "ParallelFilter", "Poly")
+            own = [m for m in vars(obj) if (not m.startswith("_") and not only_call) or m in classes[name]]
+            for m in own:
+                out["%s.%s" % (name, m)] = getattr(obj, m)
+    out["Stream.<operators>"] = None
+    return out
+
+
+def _probe_elementwise(func, value=0.25):
+    """an elementwise function on a Stream over a counting source: (reads at construction, reads after 3 outputs)"""
+    al = _al()
+    src = Src(None, vals="pos", cap=50)
+    src.value = lambda i: value          # inside the domain of the functions of lazy_math (acosh: 1.5)
+    res = func(al.Stream(src))
+    c0 = src.count
+    itr = iter(res)
+    for _ in range(3):
+        next(itr)
+    return c0, src.count
+
+
+def extra_checks(eng):
+    import inspect
+    al = _al()
+    R, X = registry(), xregistry()
+    api = _public_api()
+    elementwise = set(n for n in al.lazy_math.__all__ if callable(getattr(al, n)) and n not in EXCLUDE) | set(ELEMENTWISE_EXTRA)
+    unknown, dangling, lazy_bad = [], [], []
+    for name, obj in sorted(api.items()):
+        fam = name.split(".")[0]
+        if name in COVER:
+            for e in COVER[name]:
+                ok = (e[2:] in X) if e.startswith("x:") else e.startswith("entry:") or e in R
+                if not ok:
+                    dangling.append("%s -> %s" % (name, e))
+        elif name in EXCLUDE or fam in BLOCK_DICTS:
+            pass
+        elif name in elementwise:
+            try:
+                try:
+                    c0, c3 = _probe_elementwise(obj)
+                except ValueError:
+                    c0, c3 = _probe_elementwise(obj, 1.5)
+                if (c0, c3) != (0, 3):
+                    lazy_bad.append("%s: %d reads at construction, %d for 3 outputs" % (name, c0, c3))
+            except Exception as e:
+                lazy_bad.append("%s: %s" % (name, err_kind(e)))
+        else:
+            unknown.append(name)
+    stale = sorted(n for n in list(COVER) + list(EXCLUDE) if n not in api and n.split(".")[0] not in BLOCK_DICTS)
+    yield ("api-complete", not unknown,
+           "public callables that are neither in the registry nor in the justified exclusion list: %s" % ", ".join(unknown))
+    yield ("api-table-current", not dangling and not stale,
+           "table entries without a registry entry: %s; names that are no longer public: %s" % (dangling, stale))
+    yield ("elementwise-all-lazy", not lazy_bad, "; ".join(lazy_bad))
+    eng.count("api_names", "covered by the registry", sum(1 for n in api if n in COVER))
+    eng.count("api_names", "elementwise (all probed)", sum(1 for n in api if n in elementwise and n not in COVER))
+    eng.count("api_names", "excluded with a reason", sum(1 for n in api if n in EXCLUDE or n.split(".")[0] in BLOCK_DICTS))
+    # every parameter of the covered callables is classified, and the classification is current
+    bad = []
+    for name, roles in sorted(PARAMS.items()):
+        obj = api.get(name)
+        if obj is None:
+            bad.append("%s: not public any more" % name)
+            continue
+        try:
+            params = list(inspect.signature(obj).parameters)
+        except (TypeError, ValueError):
+            bad.append("%s: no signature" % name)
+            continue
+        if sorted(params) != sorted(roles):
+            bad.append("%s%r is classified as %r" % (name, tuple(params), sorted(roles)))
+    yield ("parameters-classified", not bad, "; ".join(bad))
+    # a registry entry that nothing refers to is not tied to the API
+    used = set(e for es in COVER.values() for e in es)
+    orphan = sorted(n for n in R if n not in used and n not in ("elementwise",)) + sorted("x:" + n for n in X if "x:" + n not in used)
+    yield ("registry-entries-tied-to-api", not orphan, "registry entries no public name refers to: %s" % orphan)
+
 _INSTALLED = False
 
 
@@ -658,6 +1108,191 @@ def registry():
         _install()
         _INSTALLED = True
     return REG
+
+
+
+# ----------------------------------------------------------------------------------------------
+# stopping stages (`probe` entry): stages that leave their loop while the source still has items.
+# Observed: pulls at construction, at iter(), and after EVERY request - also the requests made
+# after the stage has ended (StopIteration), twice at least - at the source and at every tap.
+# ----------------------------------------------------------------------------------------------
+XREG = {}
+
+
+def xreg(name, gen, build, model, err_at="build"):
+    XREG[name] = dict(name=name, gen=gen, build=build, model=model, err_at=err_at)
+
+
+def _xinstall():
+    al = _al()
+    Stream, thub = al.Stream, al.thub
+    via = lambda s, p: thub(s, 1) if p.get("route") == "thub" else Stream(s)
+
+    def g_count(rng, cx):
+        n = rng.choice([0, 1, 2, 3, 4, 6, rng.randint(0, 9)])
+        num = spell_count(rng, n)
+        if cx.get("single") and rng.random() < .06:
+            num = {"kind": rng.choice(["inf", "-inf", "nan"])}
+        return {"n": num, "route": rng.choice(["stream", "stream", "thub"])}
+    xreg("Stream.limit", g_count, lambda s, p, c: via(s, p).limit(unspell(p["n"])),
+         lambda p: {"m": "limit", "n": p["n"]})
+    xreg("Stream.skip", g_count, lambda s, p, c: via(s, p).skip(unspell(p["n"])),
+         lambda p: {"m": "skipn", "n": p["n"]}, err_at="first")
+    xreg("takewhile", lambda rng, cx: {"n": rng.randint(0, 7)},
+         lambda s, p, c: al.takewhile(_first_n_pred(p["n"]), s), lambda p: {"m": "takewhile", "n": p["n"]})
+
+    def g_isl(rng, cx):
+        start = rng.choice([0, 0, 1, 2, 5])
+        return {"start": start, "stop": rng.choice([0, 1, 3, 6, start, start + rng.randint(0, 6)]),
+                "step": rng.randint(1, 3), "short": rng.random() < .3}
+
+    def b_isl(s, p, c):
+        if p["short"]:
+            return al.islice(s, p["stop"])
+        return al.islice(s, p["start"], p["stop"], p["step"])
+    xreg("islice", g_isl, b_isl,
+         lambda p: {"m": "isliceStop", "start": 0 if p["short"] else p["start"], "stop": p["stop"],
+                    "step": 1 if p["short"] else p["step"]})
+
+
+_XINSTALLED = False
+
+
+def xregistry():
+    global _XINSTALLED
+    if not _XINSTALLED:
+        registry()
+        _xinstall()
+        _XINSTALLED = True
+    return XREG
+
+
+def _xentry(el):
+    return xregistry()[el["st"]] if el.get("x") else registry()[el["st"]]
+
+
+def _xmodel_chain(c):
+    return [_xentry(el)["model"](el["p"]) for el in c["chain"]]
+
+
+def _gen_xchain(rng, depth, single=False):
+    """chain of `depth` stages over samples, at least one of them a stopping stage; plain stages
+    behind the first stopping one see a source that ENDS, so they come from DRAIN_OK"""
+    R, X = registry(), xregistry()
+    plain_any = sorted(n for n in R if R[n]["kin"] == "any" and R[n]["kout"] == "same" and R[n]["aux"] is NOAUX
+                       and n not in ("Stream.limit", "cycle"))
+    xpos = rng.randrange(depth)
+    chain, stopped = [], False
+    for pos in range(depth):
+        if pos == xpos or (depth > 2 and rng.random() < .2):
+            name = rng.choice(sorted(X))
+            chain.append({"st": name, "x": True, "p": X[name]["gen"](rng, {"single": single})})
+            stopped = True
+        else:
+            cand = [n for n in plain_any if not stopped or n in DRAIN_OK]
+            name = rng.choice(cand)
+            chain.append({"st": name, "p": R[name]["gen"](rng, {"kind": "s", "bsize": None, "pos": pos})})
+    return chain
+
+
+def _xattach(cases):
+    """ask the Lean model how many source items K requests may pull (`need`) and how many outputs exist"""
+    todo = [c for c in cases if c.get("entry") == "probe" and "need" not in c]
+    if not todo:
+        return cases
+    outs = common.Driver().batch([{"id": ID, "entry": "probe", "chain": _xmodel_chain(c), "n": 0, "k": c["k"]} for c in todo])
+    for c, o in zip(todo, outs):
+        if "ok" not in o:
+            raise common.InfraError("C02 probe query rejected: %s for %s" % (o, json.dumps(c)[:300]))
+        c["need"] = o["ok"].get("need", 0)
+    return cases
+
+
+def _run_probe(c):
+    K = c["k"]
+    mode = c["mode"]
+    n = None if mode == "endless" else c["need"] + (0 if mode == "trip" else c["slack"])
+    RUNAWAY = c["need"] + 3000
+    src = Src(n, trip=(mode == "trip"), vals=c.get("vals", "pos"), cap=RUNAWAY)
+    ctx = Ctx()
+    ctx.cap, ctx.K, ctx.kind, ctx.bsize = RUNAWAY, K, "s", None
+    ctx.maker = lambda stage, d, j: Src(None, cap=RUNAWAY)
+    taps, cur = [src], src
+    kind = lambda e: "OTHER:TripWire" if isinstance(e, TripWire) else err_kind(e)
+    try:
+        for i, el in enumerate(c["chain"]):
+            ctx.declare(i, [])
+            out = _xentry(el)["build"](cur, el["p"], ctx)
+            if i + 1 < len(c["chain"]):
+                cur = Tap(out, cap=RUNAWAY)
+                taps.append(cur)
+            else:
+                cur = out
+    except CaseTimeout:
+        raise
+    except Exception as e:
+        return {"build_err": kind(e), "errmsg": str(e)[:200], "c0": [t.count for t in taps]}
+    counts = lambda: [t.count for t in taps]
+    obs = {"c0": counts(), "req": [], "levels": [[] for _ in taps]}
+    itr = iter(cur)
+    obs["c1"] = counts()
+    for _ in range(K):
+        try:
+            next(itr)
+            obs["req"].append(True)
+        except StopIteration:
+            obs["req"].append(False)
+        except CaseTimeout:
+            raise
+        except Exception as e:
+            obs["req"].append(kind(e))
+            obs.setdefault("errmsg", str(e)[:200])
+        for lv, v in zip(obs["levels"], counts()):
+            lv.append(v)
+    obs["tripped"] = src.tripped
+    obs["outs"] = sum(1 for r in obs["req"] if r is True)
+    return obs
+
+
+def _diff_probe(c, io, drv, which):
+    out = []
+    names = [el["st"] for el in c["chain"]]
+    xerr = [(_xentry(el)["err_at"], el["st"]) for el in c["chain"] if el.get("x")]
+    if "build_err" in drv:
+        at, st = xerr[0] if xerr else ("build", names[0])
+        if at == "build":
+            if io.get("build_err") != drv["build_err"]:
+                out.append("%s: the constructor must raise %s, impl: %s" % (st, drv["build_err"], io.get("build_err", "no error")))
+        else:
+            if "build_err" in io or not io.get("req") or io["req"][0] != drv["build_err"]:
+                out.append("%s: the first next() must raise %s, impl: %r" % (st, drv["build_err"], io.get("build_err") or io.get("req")))
+            elif any(r is not False for r in io["req"][1:]):
+                out.append("%s: after the exception the generator is finished, impl: %r" % (st, io["req"]))
+        if any(io.get("c0", [])) or any(any(lv) for lv in io.get("levels", [])):
+            out.append("%s: a call that raises %s must read nothing, pulls: %r %r" % (st, drv["build_err"], io.get("c0"), io.get("levels")))
+        return out
+    if "build_err" in io:
+        return ["impl raised %s at construction (%s), the model builds the chain" % (io["build_err"], io.get("errmsg", ""))]
+    if any(io["c0"]):
+        out.append("construction pulled items: counts=%r" % (io["c0"],))
+    if any(io.get("c1", [])):
+        out.append("iter() on the output pulled items: counts=%r" % (io["c1"],))
+    if which == "model" and io["req"] != drv["delivered"]:
+        j = next(k for k in range(len(io["req"])) if k >= len(drv["delivered"]) or io["req"][k] != drv["delivered"][k])
+        out.append("request #%d: impl %s, model %s" % (j + 1, _req_word(io["req"][j]), _req_word(drv["delivered"][j])))
+    for i, (got, exp) in enumerate(zip(io["levels"], drv[which])):
+        if got != exp:
+            j = next(k for k in range(len(got)) if k >= len(exp) or got[k] != exp[k])
+            past = " (asked past the end)" if io["req"][j] is not True else ""
+            out.append("stage %d (%s): pulls in front of it after request #%d%s: impl=%d %s=%s" % (
+                i, names[i], j + 1, past, got[j], which, exp[j] if j < len(exp) else "none"))
+    if io.get("tripped"):
+        out.append("trip-wire touched: the source was read past the %d items the chain may read" % c["need"])
+    return out
+
+
+def _req_word(r):
+    return "delivers an output" if r is True else "raises StopIteration" if r is False else "raises %s" % r
 
 
 # ----------------------------------------------------------------------------------------------
@@ -809,7 +1444,8 @@ DRAIN_OK = {"Stream", "Stream.map", "imap", "Stream.__call__", "takewhile", "Str
             "Stream(a,b)", "Stream.copy", "tee", "islice", "op.scalar", "op.unary", "Stream.real", "thub",
             "ZFilter.__call__", "CascadeFilter", "ParallelFilter", "accumulate.z", "accumulate.itertools",
             "maverage.deque", "maverage.recursive", "maverage.fir", "envelope.abs", "envelope.squared", "amdf",
-            "clip", "zcross", "blocks", "zero_pad", "overlap_add.list", "stft", "Poly.__call__", "gammatone"}
+            "clip", "zcross", "blocks", "zero_pad", "overlap_add.list", "stft", "Poly.__call__", "gammatone",
+            "attack", "pairwise", "starmap", "groupby", "batched", "chunks.struct", "chunks.array"}
 
 
 def _drainable(chain):
@@ -864,7 +1500,8 @@ def generate(rng, tier, scale=1):
             chain = _gen_chain(rng, 1, only=name)
             K = 12 if i % 4 else rng.choice([0, 1, 40] if quick else [0, 1, 40, 200])
             for mode in MODES:
-                cases.append(dict({"entry": "reads", "chain": [dict(el) for el in chain], "k": K, "mode": mode,
+                wrap = rng.choice([w for w in WRAPS if not (w == "iterable" and name in NO_ITERABLE_WRAP)])
+                cases.append(dict({"entry": "reads", "chain": [dict(el) for el in chain], "k": K, "mode": mode, "wrap": wrap,
                               "slack": rng.choice([1, 2, 7, 30]), "vals": "pos" if R[name]["head_only"] or rng.random() < .3 else "signed"},
                                   **am()))
     # every stage with auxiliary (stream-valued) arguments x every kind of auxiliary source
@@ -906,12 +1543,31 @@ def generate(rng, tier, scale=1):
             c = _ctl_case(rng, name, rng.choice([2, 3, 4, 6, 9] if quick else [2, 3, 4, 6, 9, 25]))
             if c is not None:
                 cases.append(c)
+    # stopping stages, spelled counts, requests past the end
+    X = xregistry()
+    for name in sorted(X):
+        for i in range((40 if quick else 300) * scale):
+            chain = [{"st": name, "x": True, "p": X[name]["gen"](rng, {"single": True})}]
+            for mode in MODES:
+                cases.append({"entry": "probe", "chain": chain, "k": rng.choice([1, 3, 6, 9, 12, 14]), "mode": mode,
+                              "slack": rng.choice([1, 2, 7]), "vals": "pos"})
+    for j in range((500 if quick else 4000) * scale):
+        cases.append({"entry": "probe", "chain": _gen_xchain(rng, rng.randint(2, 3 if quick else 4)),
+                      "k": rng.choice([2, 5, 9, 12, 14]), "mode": rng.choice(MODES), "slack": rng.choice([1, 3, 20]),
+                      "vals": "pos"})
     if scale == 1:
         for n in range(0, 9):
             for ln in (n, n + 1, n + 5):
                 cases.append({"entry": "take", "n": n, "len": ln, "form": ("int", "float")[n % 2]})
             cases.append({"entry": "peek", "n": n, "k": 8, "hub": n % 3 == 0})
-    return [c for c in _attach(cases) if not _oversized(c)]
+    for i in range((150 if quick else 1500) * scale):
+        n = rng.randint(0, 8)
+        num = spell_count(rng, n, kinds=("int", "float", "float", "float", "frac", "bool"))
+        if rng.random() < .1:
+            num = {"kind": rng.choice(["inf", "-inf", "nan"])}
+        cases.append({"entry": "take", "num": num, "len": rng.choice([0, n, n + 1, n + 5, rng.randint(0, 12)]),
+                      "how": rng.choice(["take", "take", "peek", "hub.peek", "take.kw"])})
+    return [c for c in _xattach(_attach(cases)) if not _oversized(c)]
 
 
 # ----------------------------------------------------------------------------------------------
@@ -936,7 +1592,7 @@ def _build_chain(c, src, ctx, RUNAWAY):
     R = registry()
     taps = [src]
     kinds = _kinds(c["chain"])
-    cur = src
+    cur = wrap_source(c.get("wrap", "raw"), src)
     for i, el in enumerate(c["chain"]):
         ctx.kind, ctx.bsize = kinds[i]
         ctx.declare(i, R[el["st"]]["aux"](el["p"]))
@@ -980,6 +1636,22 @@ def _run_reads(c):
                 a[3].append(v)
     except StopIteration:
         obs["ended"] = True
+        if mode == "drain":
+            # asked PAST the end, twice: a finished stage raises StopIteration again and reads nothing
+            before = counts()
+            post = []
+            for _ in range(2):
+                try:
+                    next(itr)
+                    post.append("output")
+                except StopIteration:
+                    post.append("stop")
+                except CaseTimeout:
+                    raise
+                except Exception as e:
+                    post.append(err_kind(e))
+            obs["post"] = post
+            obs["post_reads"] = [b - a for a, b in zip(before, counts())]
     except CaseTimeout:
         raise
     except Exception as e:  # TripWire, RuntimeError, ...
@@ -1081,6 +1753,35 @@ def impl(c):
         finally:
             signal.setitimer(signal.ITIMER_REAL, 0)
             signal.signal(signal.SIGALRM, old)
+    if c["entry"] == "probe":
+        if "need" not in c:
+            _xattach([c])
+        import signal
+        old = signal.signal(signal.SIGALRM, _alarm)
+        signal.setitimer(signal.ITIMER_REAL, CASE_TIMEOUT)
+        try:
+            return _run_probe(c)
+        except CaseTimeout as e:
+            return {"err": "OTHER:Timeout", "errmsg": str(e)}
+        except Exception as e:
+            return {"err": "harness:" + err_kind(e), "errmsg": str(e)[:300]}
+        finally:
+            signal.setitimer(signal.ITIMER_REAL, 0)
+            signal.signal(signal.SIGALRM, old)
+    if c["entry"] == "take" and "num" in c:
+        # consumers with a SPELLED count: items pulled by the call, items handed out, and what is left
+        src = Src(c["len"], trip=False)
+        how = c["how"]
+        s = al.thub(src, 1) if how == "hub.peek" else al.Stream(src)
+        n = unspell(c["num"])
+        try:
+            c0 = src.count
+            got = s.take(n=n) if how == "take.kw" else s.take(n) if how == "take" else s.peek(n)
+            pulled = src.count
+            rest = len(list(s))
+            return {"c0": c0, "pulled": pulled, "got": len(got), "rest": rest, "total": src.count}
+        except Exception as e:
+            return {"err": err_kind(e), "pulled": src.count}
     if c["entry"] == "take":
         src = Src(c["len"], trip=True)
         s = al.Stream(src)
@@ -1114,7 +1815,10 @@ def request(c):
             return {"entry": "reads", "chain": _model_chain(c), "n": c["n"], "k": c["k"], "aux": _aux_req(c)}
         n = c["need"] + (64 if c["mode"] == "endless" else (0 if c["mode"] == "trip" else c["slack"]))
         return {"entry": "reads", "chain": _model_chain(c), "n": n, "k": c["k"], "aux": _aux_req(c)}
-    return {k: v for k, v in c.items() if k in ("entry", "n", "len", "k")}
+    if c["entry"] == "probe":
+        n = c["need"] + (64 if c["mode"] == "endless" else (0 if c["mode"] == "trip" else c["slack"]))
+        return {"entry": "probe", "chain": _xmodel_chain(c), "n": n, "k": c["k"]}
+    return {k: v for k, v in c.items() if k in ("entry", "n", "len", "k", "num")}
 
 
 def _diff(c, io, drv, which):
@@ -1158,6 +1862,12 @@ def _diff(c, io, drv, which):
             j = next(k for k in range(len(got)) if k >= len(exp) or got[k] != exp[k])
             out.append("stage %d (%s): auxiliary source `%s` (rule %s) pulls after next #%d: impl=%d %s=%s" % (
                 i, c["chain"][i]["st"], name, rule, j + 1, got[j], which, exp[j] if j < len(exp) else "none"))
+    if drain and which == "model" and "post" in io:
+        # Props.asked_past_the_end: after the first StopIteration every request fails, the counters stay
+        if io["post"] != ["stop", "stop"]:
+            out.append("asked twice past the end: %r instead of StopIteration twice" % (io["post"],))
+        if any(io["post_reads"]):
+            out.append("asked twice past the end: %r more items pulled (taps)" % (io["post_reads"],))
     if io.get("tripped"):
         out.append("trip-wire touched")
     if io.get("aux_tripped"):
@@ -1207,6 +1917,26 @@ def compare(c, io, drv):
             for d in _diff_ctl(c, io, drv, which):
                 out.append((which, d))
         return out
+    if c["entry"] == "probe":
+        if "err" in io:
+            return [("model", "impl run failed: %s (%s)" % (io["err"], io.get("errmsg", "")))]
+        for which in ("model", "spec"):
+            for d in _diff_probe(c, io, drv, which):
+                out.append((which, d))
+        return out
+    if c["entry"] == "take" and "num" in c:
+        what = "%s(%r) on %d items" % (c["how"], unspell(c["num"]), c["len"])
+        if "err" in drv:
+            if io.get("err") != drv["err"] or io.get("pulled"):
+                out.append(("model", "%s must raise %s without reading, impl=%r" % (what, drv["err"], io)))
+            return out
+        for which in ("model", "spec"):
+            peek = c["how"] in ("peek", "hub.peek")
+            want_rest = c["len"] - (0 if peek else drv[which])
+            if "err" in io or io["c0"] != 0 or io["pulled"] != drv[which] or io["got"] != drv[which] or \
+                    io["rest"] != want_rest or io["total"] != c["len"]:
+                out.append((which, "%s: impl=%r, %s: %d items pulled and handed out, %d left" % (what, io, which, drv[which], want_rest)))
+        return out
     if c["entry"] == "take":
         for which in ("model", "spec"):
             if "err" in io or io["pulled"] != drv[which] or io["got"] != drv[which]:
@@ -1221,6 +1951,8 @@ def compare(c, io, drv):
 def nontrivial(c, io):
     if c["entry"] in ("reads", "ctl"):
         return io.get("outs", 0) > 0
+    if c["entry"] == "probe":
+        return "req" in io or "build_err" in io
     return "err" not in io
 
 
@@ -1236,9 +1968,46 @@ def tally(eng, c, io):
         eng.count("ctl_result", "error" if ("A_err" in io or "B_err" in io or "err" in io) else
                   "differs" if io.get("first_diff") is not None else "over-read" if io.get("over") else "identical")
         return
+    if c["entry"] == "probe":
+        eng.count("probe_mode", c["mode"])
+        eng.count("probe_depth", len(c["chain"]))
+        for i, el in enumerate(c["chain"]):
+            eng.count("probe_stage", el["st"] + (" (stopping)" if el.get("x") else ""))
+            if el.get("x"):
+                eng.count("probe_stop_position", "single" if len(c["chain"]) == 1 else "head" if i == 0 else
+                          "last" if i == len(c["chain"]) - 1 else "inner")
+                if "n" in el["p"] and isinstance(el["p"]["n"], dict):
+                    eng.count("count_spelling", "%s(%s)" % (el["st"], spell_tag(el["p"]["n"])))
+                if "route" in el["p"]:
+                    eng.count("method_called_on", el["p"]["route"])
+        if "build_err" in io:
+            eng.count("probe_result", "constructor raises " + io["build_err"])
+        elif "req" in io:
+            past = sum(1 for r in io["req"] if r is not True)
+            eng.count("requests_past_the_end", min(past, 3))
+            errs = [r for r in io["req"] if r not in (True, False)]
+            eng.count("probe_result", "raises " + errs[0] if errs else "ended" if past else "not exhausted")
+        return
+    if c["entry"] == "take" and "num" in c:
+        eng.count("count_spelling", "%s(%s)" % (c["how"], spell_tag(c["num"])))
+        eng.count("take_result", "err:" + io["err"] if "err" in io else "all" if io["got"] == c["len"] else "some" if io["got"] else "none")
+        return
     if c["entry"] != "reads":
         return
+    for el in c["chain"]:
+        if "shape" in el["p"]:
+            eng.count("call_shape", "%s:%s" % (el["st"], el["p"]["shape"]))
+        if el["st"] == "resample" and "num" in el["p"]:
+            eng.count("count_spelling", "resample.old/new(%s)" % el["p"]["num"])
+        if el["st"] == "zero_pad":
+            eng.count("count_spelling", "zero_pad.left(%s)" % type(el["p"]["left"]).__name__)
+        for k, v in el["p"].items():
+            if isinstance(v, dict) and "kind" in v:
+                eng.count("count_spelling", "%s.%s(%s)" % (el["st"], k, spell_tag(v)))
+        if "route" in el["p"] and el["st"].startswith("Stream."):
+            eng.count("method_called_on", el["p"]["route"])
     eng.count("mode", c["mode"])
+    eng.count("head_source_object", c.get("wrap", "raw"))
     eng.count("depth", len(c["chain"]))
     eng.count("k", c["k"] if c["k"] <= 12 else ">12")
     for el in c["chain"]:
@@ -1267,6 +2036,8 @@ def tally(eng, c, io):
             eng.count("resample.tv_pattern_len", max(len(p[n]) for n in ("old", "new") if isinstance(p[n], list)))
     if "err" in io:
         eng.count("impl_error", io["err"])
+    if "post" in io:
+        eng.count("drained_then_asked_twice", "/".join(io["post"]))
     if io.get("levels") and io["levels"][0]:
         last = io["levels"][0][-1]
         eng.count("source_vs_outputs", "pulls<k" if last < io["outs"] else ("pulls=k" if last == io["outs"] else "pulls>k"))
@@ -1274,7 +2045,8 @@ def tally(eng, c, io):
 
 def _strip(c):
     d = {k: v for k, v in c.items() if k not in ("need", "cap", "aux_need", "sched")}
-    d["chain"] = [{"st": el["st"], "p": {k: v for k, v in el["p"].items() if k != "nsteps"}} for el in c["chain"]]
+    d["chain"] = [dict({"st": el["st"], "p": {k: v for k, v in el["p"].items() if k != "nsteps"}},
+                       **({"x": True} if el.get("x") else {})) for el in c["chain"]]
     return d
 
 
@@ -1326,6 +2098,31 @@ def _param_cands(c):
 
 def shrink(c):
     """Few, strongly smaller candidates per round: single stages first, then k, then parameters."""
+    if c["entry"] == "probe":
+        _SHRINK_CALLS[0] += 1
+        if _SHRINK_CALLS[0] > SHRINK_BUDGET:
+            return
+        cands, ch = [], _strip(c)["chain"]
+        if len(ch) > 1:
+            cands += [dict(_strip(c), chain=[el]) for el in ch]
+            cands += [dict(_strip(c), chain=ch[:i] + ch[i + 1:]) for i in range(len(ch))]
+        if c["k"] > 1:
+            cands += [dict(_strip(c), k=v) for v in sorted({1, c["k"] // 2, c["k"] - 1})]
+        if c["mode"] != "finite":
+            cands.append(dict(_strip(c), mode="finite", slack=3))
+        for i, el in enumerate(ch):
+            num = el["p"].get("n")
+            if isinstance(num, dict) and num["kind"] in ("float", "frac", "int") and F(num["v"]) > 1:
+                nc = _strip(c)
+                nc["chain"][i] = dict(el, p=dict(el["p"], n=dict(num, v=common.enc(F(num["v"]) - 1))))
+                cands.append(nc)
+        try:
+            _xattach(cands)
+        except Exception:
+            return
+        for x in cands:
+            yield x
+        return
     if c["entry"] not in ("reads", "ctl"):
         return
     _SHRINK_CALLS[0] += 1
@@ -1372,6 +2169,8 @@ def shrink(c):
         cands += [dict(_strip(c), k=v) for v in sorted({1, c["k"] // 2, c["k"] - 1})]
     if c["mode"] not in ("finite", "drain"):
         cands.append(dict(_strip(c), mode="finite", slack=5))
+    if c.get("wrap", "raw") != "raw":
+        cands.append(dict(_strip(c), wrap="raw"))
     if c.get("amode", "endless") != "endless" and c["mode"] != "drain":
         cands.append(dict(_strip(c), amode="endless"))      # plain counting shows an over-read without a trip-wire
     cands += _param_cands(c)
@@ -1385,6 +2184,12 @@ def shrink(c):
 
 
 def neighbours(c):
+    if c["entry"] == "probe":
+        cands = [dict(_strip(c), k=k, mode=m, slack=3) for k in (1, 3, 8, 14) for m in MODES]
+        _xattach(cands)
+        for x in cands:
+            yield x
+        return
     if c["entry"] != "reads":
         return
     cands = []
@@ -1416,10 +2221,34 @@ def classify(c, io, drv):
         if "B_err" in io:
             return "%s:control:err:%s" % (st, io["B_err"].split(":")[0])
         return "%s:control:%s" % (st, "value-lands-late-or-early" if io.get("first_diff") is not None else "schedule")
+    if c["entry"] == "probe":
+        names = [el["st"] for el in c["chain"]]
+        st = next((el["st"] for el in c["chain"] if el.get("x")), names[0])
+        if "err" in io:
+            return "%s:probe:err:%s" % (st, io["err"])
+        if "build_err" in io or "build_err" in drv:
+            return "%s:probe:constructor-error" % st
+        if any(io["c0"]) or any(io.get("c1", [])):
+            return "%s:probe:reads-at-construction" % names[next(i for i, v in enumerate([a or b for a, b in zip(io["c0"], io.get("c1", io["c0"]))]) if v)]
+        if io["req"] != drv.get("delivered"):
+            return "%s:probe:outputs" % st
+        for i in reversed(range(len(io["levels"]))):
+            got, exp = io["levels"][i], drv["model"][i]
+            if got != exp:
+                j = next(k for k in range(len(got)) if k >= len(exp) or got[k] != exp[k])
+                past = "-past-the-end" if io["req"][j] is not True else ""
+                return "%s:probe:%s%s" % (names[i], "over-read" if j >= len(exp) or got[j] > exp[j] else "under-read", past)
+        return "%s:probe:other" % st
+    if c["entry"] == "take" and "num" in c:
+        return "%s:spelled-count:%s" % (c["how"], "err:" + io["err"] if "err" in io else "over-read" if io.get("pulled", 0) > drv.get("model", 0) else "other")
     if c["entry"] != "reads":
         return c["entry"] + ":" + ("err:" + io["err"] if "err" in io else "over-read")
     names = [el["st"] for el in c["chain"]]
     if "err" in io:
+        if io["err"] == "RuntimeError" and "attack" in names and c["mode"] == "drain" and \
+                "StopIteration" in io.get("errmsg", "") and \
+                io.get("partial", [1] * len(names))[names.index("attack")] == 0:
+            return "attack:empty-sustain:err:RuntimeError"      # the stream in front of attack delivered nothing
         if io.get("aux_tripped"):
             own = [a[0] for a in io.get("aux", []) if a[2] in io["aux_tripped"]]
             return "%s:aux-%s:over-read" % (names[own[0]] if own else names[0], io["aux_tripped"][0])
